@@ -20,7 +20,7 @@ use std::sync::mpsc;
 use std::time::{Duration, SystemTime};
 
 #[derive(Clone)]
-struct DelaySystem { inner: FakeSystem, delays: Arc<Vec<(&'static str, &'static str, u64)>> }
+struct DelaySystem { inner: FakeSystem, delays: Arc<Vec<(&'static str, &'static str, u64)>>, mkdirs: Arc<std::sync::atomic::AtomicUsize> }
 impl std::fmt::Debug for DelaySystem { fn fmt(&self, f: &mut std::fmt::Formatter<'_>) -> std::fmt::Result { write!(f, "DelaySystem") } }
 impl DelaySystem
 {
@@ -34,7 +34,13 @@ impl System for DelaySystem
     type File = FakeOpenFile;
     fn open(&self, path: &str) -> Result<Self::File, SystemError> { self.pause("open", path); self.inner.open(path) }
     fn create_file(&mut self, path: &str) -> Result<Self::File, SystemError> { self.inner.create_file(path) }
-    fn create_dir(&mut self, path: &str) -> Result<(), SystemError> { self.inner.create_dir(path) }
+    /*  delay point for directories made in the workspace: the subject is "<path>#<n>", n counting such calls over all threads, so
+        that ("create_dir", "#1") holds up whichever thread gets there first and lets the others overtake it */
+    fn create_dir(&mut self, path: &str) -> Result<(), SystemError>
+    {
+        if !path.starts_with(".ruler") { let n = self.mkdirs.fetch_add(1, std::sync::atomic::Ordering::SeqCst) + 1; self.pause("create_dir", &format!("{}#{}", path, n)); }
+        self.inner.create_dir(path)
+    }
     fn is_dir(&self, path: &str) -> bool { self.inner.is_dir(path) }
     fn is_file(&self, path: &str) -> bool { self.inner.is_file(path) }
     fn remove_file(&mut self, path: &str) -> Result<(), SystemError> { self.inner.remove_file(path) }
@@ -205,7 +211,7 @@ fn verif_sched_twins()
         write_str_to_file(&mut system, "a.txt", "left over\n").unwrap();
         write_str_to_file(&mut system, "b.txt", "left over\n").unwrap();
         system.time_passes(1);
-        let ds = DelaySystem { inner: system.clone(), delays: Arc::new(delays) };
+        let ds = DelaySystem { inner: system.clone(), delays: Arc::new(delays), mkdirs: Arc::new(std::sync::atomic::AtomicUsize::new(0)) };
         let (tx, rx) = mpsc::channel();
         std::thread::spawn(move || { let r = catch_unwind(AssertUnwindSafe(|| build(ds, &mut EmptyPrinter::new(), params()))); let _ = tx.send(r); });
         c05 += 1;
@@ -249,7 +255,7 @@ fn run_corpus(name: &str, rules: &str, setup: fn(&mut FakeSystem), points: &[(&'
         setup(&mut system);
         system.time_passes(1);
         let log_before = system.get_command_log().len();
-        let ds = DelaySystem { inner: system.clone(), delays: Arc::new(delays) };
+        let ds = DelaySystem { inner: system.clone(), delays: Arc::new(delays), mkdirs: Arc::new(std::sync::atomic::AtomicUsize::new(0)) };
         let (tx, rx) = mpsc::channel();
         std::thread::spawn(move || { let r = catch_unwind(AssertUnwindSafe(|| build(ds, &mut EmptyPrinter::new(), params()))); let _ = tx.send(r); });
         tallies[2].0 += 1;
@@ -298,6 +304,58 @@ in.txt
 mycat
 in.txt
 middle.txt
+:
+";
+/*  two independent rules with their targets in one sub-directory */
+const RULES_OUTDIR : &str = "\
+out/apples.txt
+:
+a.txt
+:
+mycat
+a.txt
+out/apples.txt
+:
+
+out/bananas.txt
+:
+b.txt
+:
+mycat
+b.txt
+out/bananas.txt
+:
+";
+/*  built, cleaned (both targets are in the cache, both histories know them); then the user removes the empty directory */
+fn setup_outdir_kept(s: &mut FakeSystem)
+{
+    s.create_dir("out").unwrap();
+    write_str_to_file(s, "a.txt", "apples\n").unwrap(); write_str_to_file(s, "b.txt", "bananas\n").unwrap();
+    s.time_passes(1);
+    build(s.clone(), &mut EmptyPrinter::new(), params()).unwrap();
+    s.time_passes(1);
+    crate::build::clean(s.clone(), ".ruler", vec!["build.rules".to_string()], None).unwrap();
+}
+fn setup_outdir(s: &mut FakeSystem) { setup_outdir_kept(s); s.remove_dir("out").unwrap(); }
+const RULES_NUL_TARGET : &str = "\
+nul\0target.txt
+:
+in.txt
+:
+mycat
+in.txt
+nul\0target.txt
+:
+";
+const RULES_NUL_SOURCE : &str = "\
+plain.txt
+:
+in.txt
+nul\0source.txt
+:
+mycat
+in.txt
+plain.txt
 :
 ";
 fn setup_in(s: &mut FakeSystem) { write_str_to_file(s, "in.txt", "input\n").unwrap(); }
@@ -362,6 +420,29 @@ fn verif_sched_corpora()
     run_corpus("two missing leaves around a slow one", RULES_FANIN, setup_fanin, &[("open", "m_slow.txt"), ("command", "poem.txt")], &["middle.txt", "poem.txt"],
                Some("WorkErrors[\"FileNotFound(a_missing.txt)\", \"FileNotFound(z_missing.txt)\"]"), &["mycat middle.txt poem.txt"], &mut t);
     run_corpus("one cache entry for two rules", RULES_SHARED, setup_shared, &[("open", ".ruler/cache"), ("rename", "a.txt"), ("rename", "b.txt")], &["a.txt", "b.txt"], Some("Ok"), &[], &mut t);
+    run_corpus("two independent rules bring their targets back into one directory that is gone", RULES_OUTDIR, setup_outdir,
+               &[("create_dir", "#1"), ("create_dir", "#2"), ("open", "a.txt"), ("open", "b.txt"), ("rename", "out/apples.txt")], &["out/apples.txt", "out/bananas.txt"], None, &[], &mut t);
+    run_corpus("two independent rules bring their targets back into one directory", RULES_OUTDIR, setup_outdir_kept,
+               &[("create_dir", "#1"), ("open", "a.txt"), ("rename", "out/apples.txt"), ("rename", "out/bananas.txt")], &["out/apples.txt", "out/bananas.txt"], Some("Ok"), &[], &mut t);
+    /*  odd bytes in path names: whatever the verdict, build() and clean() return it */
+    run_corpus("a target path with a NUL byte", RULES_NUL_TARGET, setup_in, &[], &["nul\0target.txt"], None, &[], &mut t);
+    run_corpus("a missing source path with a NUL byte", RULES_NUL_SOURCE, setup_in, &[], &["plain.txt"], None, &[], &mut t);
+    for (name, rules) in [("clean: a target path with a NUL byte", RULES_NUL_TARGET), ("clean: a missing source path with a NUL byte", RULES_NUL_SOURCE)].iter()
+    {
+        let mut system = FakeSystem::new(10);
+        write_str_to_file(&mut system, "build.rules", rules).unwrap();
+        setup_in(&mut system);
+        let (tx, rx) = mpsc::channel();
+        let sys2 = system.clone();
+        std::thread::spawn(move || { let r = catch_unwind(AssertUnwindSafe(|| crate::build::clean(sys2, ".ruler", vec!["build.rules".to_string()], None))); let _ = tx.send(r.map(|_| ())); });
+        t[2].0 += 1;
+        match rx.recv_timeout(Duration::from_secs(20))
+        {
+            Err(_) => { t[2].1 += 1; println!("WITNESS B-sched-C05 :: {} :: clean() did not return within 20 s", name); },
+            Ok(Err(_)) => { t[2].1 += 1; println!("WITNESS B-sched-C05 :: {} :: clean() panicked", name); },
+            Ok(Ok(())) => {},
+        }
+    }
     for (k, n) in ["C03", "C04", "C05", "C06"].iter().enumerate() { println!("SUMMARY B-sched-corpora-{} cases={} disagreements={}", n, t[k].0, t[k].1); }
 }
 
@@ -391,7 +472,7 @@ fn verif_sched_build()
             let label = format!("{} delays {:?}", sc.name, delays.iter().map(|d| d.2).collect::<Vec<u64>>());
             let system = (sc.make)();
             let log_before = system.get_command_log().len();
-            let ds = DelaySystem { inner: system.clone(), delays: Arc::new(delays) };
+            let ds = DelaySystem { inner: system.clone(), delays: Arc::new(delays), mkdirs: Arc::new(std::sync::atomic::AtomicUsize::new(0)) };
             let (tx, rx) = mpsc::channel();
             std::thread::spawn(move || { let r = catch_unwind(AssertUnwindSafe(|| build(ds, &mut EmptyPrinter::new(), params()))); let _ = tx.send(r); });
             c05 += 1;
